@@ -193,7 +193,7 @@ unusual (int bx, int by)
 static void
 scan (const int *a)
 {
-    long long scanned = 0, selected = 0, control = 0;
+    long long scanned = 0, selected = 0, control = 0, structural = 0;
     int rk, sk, bits, sc;
     char name[96];
     signal (SIGSEGV, scan_crash); signal (SIGBUS, scan_crash); signal (SIGABRT, scan_crash);
@@ -224,11 +224,21 @@ scan (const int *a)
 			log_begin (rx, ry, sx, sy, scx, scy, bx, by);
 			log_created ();
 			if (why) selected++; else control++;
+			/* a few dozen structurally unusual tables are evidence enough: do not flood the trace when
+			 * nearly every table is selected (the trace specification judges each logged table) */
+			if (why && why != 8 && ++structural >= 40)
+			{
+			    free (params);
+			    params = NULL;
+			    scanned++;
+			    goto done;
+			}
 		    }
 		    scanned++;
 		    free (params);
 		    params = NULL;
 		}
+done:
     vt_begin ("ScanDone");
     vt_int ("scanned", scanned);
     vt_int ("selected", selected);
